@@ -809,6 +809,25 @@ where
         break existing_future.clone();
       }
 
+      // 2b. No marker does not mean the value is absent: a load that was in
+      //     flight when our optimistic lookup missed inserts its value and only
+      //     then removes its marker. Re-check the map before electing ourselves,
+      //     or the loader runs a second time for the same miss. Taking the shard
+      //     read lock under the `pending_loads` lock is safe: the only code that
+      //     touches `pending_loads` while holding a shard lock
+      //     (`trigger_background_load`) uses `try_lock` and never blocks on it,
+      //     and the loader task releases the shard lock before taking this one.
+      {
+        let shard = self.shared.store.get_shard(key);
+        let guard = shard.map.read();
+        if let Some(entry) = guard.get(key) {
+          if !entry.is_expired(self.shared.time_to_idle) {
+            self.shared.metrics.record_hits(index, 1);
+            return entry.value();
+          }
+        }
+      }
+
       // 3. If we reach here, we are the "leader".
       //    This is the only time a MISS is recorded for the entire operation.
       self.shared.metrics.record_misses(index, 1);
